@@ -224,6 +224,65 @@ class _Maybe:
     __rand__ = __and__
 
 
+class _IdxSet:
+    """np.flatnonzero(mask) / np.nonzero(mask)[0] / np.where(mask)[0]: the indices selected by a per-qubit mask.
+    Read at the generic qubit it is the mask again."""
+
+    def __init__(self, mask):
+        self.mask = mask
+
+    def pqv_truth_mask(self):
+        return self.mask.pqv_truth()
+
+    def pqv_getattr(self, name):
+        if name == 'size':
+            return _SizeVal(self.mask)
+        return TOP
+
+    def pqv_len(self):
+        return _SizeVal(self.mask)
+
+    def pqv_getitem(self, idx):
+        if isinstance(idx, _Maybe) and isinstance(self.mask, _Flipped):
+            return _IdxSet(self.mask.__and__(idx))
+        if isinstance(idx, (int,)) and not isinstance(idx, bool):
+            return self                  # np.nonzero(mask)[0]
+        return TOP
+
+
+class _SizeVal:
+    """Number of selected qubits; only `> 0`-style tests are understood."""
+
+    def __init__(self, mask):
+        self.mask = mask
+
+    def pqv_compare(self, op, other, swapped):
+        if not swapped and ((isinstance(op, (ast.Gt, ast.NotEq)) and other == 0) or (isinstance(op, ast.GtE) and other == 1)):
+            return _SizePos(self.mask)
+        if not swapped and ((isinstance(op, ast.Eq) and other == 0) or (isinstance(op, ast.Lt) and other == 1)):
+            return _NotMaybe(_SizePos(self.mask))
+        return TOP
+
+    def pqv_truth(self):
+        return _SizePos(self.mask).pqv_truth()
+
+
+class _SizePos:
+    """"Some qubit is selected": certainly true when the generic qubit itself is selected, unknown otherwise."""
+
+    def __init__(self, mask):
+        self.mask = mask
+
+    def pqv_truth(self):
+        if self.mask.pqv_truth():
+            return True
+        st = _CUR['store']
+        k = ('maybe', ('some-other-qubit-selected', repr(self.mask)))
+        if k not in st:
+            st[k] = (_CUR['it'].choose(2) == 0)
+        return st[k]
+
+
 class _NotMaybe:
     def __init__(self, m):
         self.m = m
@@ -491,6 +550,10 @@ class SectorHooks(Hooks):
                     self.log.append(('prob-store', dict(self.store), out_.value))
                 return out_
             raise AnalysisError('R05.3', f'numpy.{n}', f'call with out={out_!r} is not modelled')
+        if n in ('flatnonzero',) and len(args) == 1 and isinstance(args[0], (_Flipped, _Maybe)):
+            return _IdxSet(args[0])
+        if n in ('nonzero', 'where') and len(args) == 1 and isinstance(args[0], (_Flipped, _Maybe)):
+            return (_IdxSet(args[0]),)
         if n == 'where' and len(args) == 3 and isinstance(args[0], (_Flipped, _Maybe)):
             return args[1] if args[0].pqv_truth() else args[2]
         if n in ('hstack', 'concatenate') and args and isinstance(args[0], (list, tuple)) and len(args[0]) == 2:
@@ -531,6 +594,8 @@ class SectorHooks(Hooks):
                 obj.bad.append(f'{value!r} stored into the {half} half')
             return None
         if isinstance(obj, ProbCell):
+            if isinstance(idx, _IdxSet):
+                idx = idx.mask
             if isinstance(idx, (_Flipped, _Maybe)) and not idx.pqv_truth():
                 return None                      # masked store: the generic qubit is not selected on this path
             obj.value = value
